@@ -303,11 +303,14 @@ class FileSaver(strax.Saver):
         self.prefix = dirname_to_prefix(dirname)
         self.metadata_json = RUN_METADATA_PATTERN % self.prefix
 
-        if os.path.exists(dirname):
-            print(f"Removing data in {dirname} to overwrite")
-            shutil.rmtree(dirname)
         if os.path.exists(self.tempdirname):
             print(f"Removing old incomplete data in {self.tempdirname}")
+            shutil.rmtree(self.tempdirname)
+        if os.path.exists(dirname):
+            print(f"Removing data in {dirname} to overwrite")
+            # Move it out of the way first: an interrupted removal must not
+            # leave a directory without metadata under the final name
+            os.rename(dirname, self.tempdirname)
             shutil.rmtree(self.tempdirname)
         os.makedirs(self.tempdirname)
         self._flush_metadata()
